@@ -687,12 +687,17 @@ func judgeFlows(c *Cluster, rs, fresh *ruleset, stage string, rejectedBatch, obs
 			res.counters["mismatches_a_fresh_manager_does_not_have"]++
 			sigs, text = explainStale(rs, fresh, skip, pkt, allowed, dir, local.Name+"_"+local.NS)
 			for i := range sigs {
+				class := strings.TrimPrefix(sigs[i], "c16-")
 				sigs[i] += stage
 				if rejectedBatch && batchConsequence(sigs[i]) {
 					// the sync before this judgement had its policy batch rejected (-X of a referenced stale policy chain):
 					// chains it should have written are missing or outdated
 					sigs[i] += "-with-rejected-policy-batch"
 				}
+				// the signature names class and stage; whether the defect admits or drops the flow is counted here and
+				// stays in message and witness
+				res.counters[fmt.Sprintf("transition_mismatch:%s:%s:%s", class, strings.TrimPrefix(strings.TrimPrefix(sigs[i],
+					"c16-"+class), "-"), map[bool]string{true: "drops", false: "admits"}[allowed])]++
 			}
 		} else if allowed {
 			sigs, text = explainUnder(c, dir, local, remote, admits)
@@ -709,7 +714,7 @@ func judgeFlows(c *Cluster, rs, fresh *ruleset, stage string, rejectedBatch, obs
 				// the handlers are a fast path; the property speaks about the state a full sync establishes. What is only
 				// wrong between the handlers and the next full sync is recorded, not reported.
 				class := strings.TrimSuffix(strings.TrimPrefix(s, "c16-"), stage)
-				res.counters["after_events_only_mismatch:"+class]++
+				res.counters["after_events_only_mismatch:"+class+":"+map[bool]string{true: "drops", false: "admits"}[allowed]]++
 				if res.obs == nil {
 					res.obs = map[string]*violation{}
 				}
